@@ -204,7 +204,8 @@ def run(ctx):
         ctx.fail("corr", "C28 whole: TimedToSequential output differs from the model t2s_action (%s)" % ",".join(bits),
                  ["whole", "t2s-compile"] + bits, {"case": raw[i], "code": code, "gallina": cases[i][:6000],
                                                    "theorem_or_corr": "corr:C28_whole"}, False)
-    return {"layer_cases": len(cases), "mismatches": mism, "distribution": dict(stats),
+    probes = run_probes(ctx)
+    return {"layer_cases": len(cases), "mismatches": mism, "distribution": dict(stats), "probes": probes,
             "samples": raw[:3], "seconds_python": round(t1 - t0, 1), "seconds_coq": round(t2 - t1, 1),
             "rule": "one case per distinct serialised (durative action, compiled action) pair"}
 
@@ -231,3 +232,51 @@ def build_only(c28, spec):
     finally:
         mod.TimedToSequential = real
     return p, up_acts[0]
+
+
+# ----------------------------------------------------------------------------- recorded open findings, exercised in every run
+# (name of the builder in /verif/corpus/c28_whole_repro.py, finding id, expected outcome, signature tags, what fails)
+PROBES = [
+    ("bounded_mid", "C28-F28w-bounded-mid", ("verdicts", "VALID", "INVALID"),
+     ["c28", "whole", "bounded-type-violated-between-start-and-end", "seq-valid-tt-invalid"],
+     "TimedToSequential accepts BOUNDED_TYPES but the compiled action only sees the combined start+end effect: a bounded "
+     "fluent leaves its type between start and end (n:int[0,5]=4, start n+=3, end n-=3); the compiled plan is VALID, the "
+     "converted plan is rejected by TimeTriggeredPlanValidator"),
+    ("empty_duration", "C28-F28w-empty-duration", ("verdicts", "VALID", "INVALID"),
+     ["c28", "whole", "empty-duration-interval", "seq-valid-tt-invalid"],
+     "TimedToSequential drops the duration constraint without a precondition that the interval is non-empty: with "
+     "fluent-dependent bounds lower > upper in the start state (duration [m,5], m=7) the compiled plan is VALID and the "
+     "converted plan (duration = lower bound) is rejected by TimeTriggeredPlanValidator"),
+    ("forall_effect", "C28-F28w-forall-crash", ("compile-raises", "UPUnboundedVariablesError"),
+     ["c28", "whole", "forall-effect", "compile-raises", "UPUnboundedVariablesError"],
+     "TimedToSequential.supported_kind has FORALL_EFFECTS but _compile re-adds effects without their forall variables: "
+     "compile raises UPUnboundedVariablesError on a durative action with a quantified effect"),
+]
+
+
+def run_probes(ctx):
+    import importlib.util
+    import os
+    from harness.core import VERIF
+    path = os.path.join(VERIF, "corpus", "c28_whole_repro.py")
+    spec = importlib.util.spec_from_file_location("c28_whole_repro", path)
+    mod = importlib.util.module_from_spec(spec)
+    spec.loader.exec_module(mod)
+    out = {}
+    for name, fid, expect, tags, what in PROBES:
+        stage, detail = mod.run(getattr(mod, name))
+        if stage == "verdicts":
+            got = ("verdicts", detail[0], detail[1])
+        else:
+            got = (stage, detail if isinstance(detail, (str, type(None))) else tuple(detail))
+        payload = {"probe": name, "finding": fid, "expected": list(expect), "observed": [stage, detail],
+                   "script": "corpus/c28_whole_repro.py", "theorem_or_corr": "oracle:C28_whole:%s" % name}
+        out[name] = list(got)
+        if got == expect:
+            ctx.fail("oracle", what, tags, payload, True)
+        else:
+            # the recorded defect is gone or changed: the _refuted examples of Props/C28_whole.v and KNOWN_FINDINGS are stale
+            ctx.fail("corr", "C28 whole: recorded finding %s no longer reproduces (expected %s, observed %s): update "
+                             "Compilers/T2SCompile.v, Props/C28_whole.v and KNOWN_FINDINGS" % (fid, expect, got),
+                     ["c28", "whole", "probe-no-longer-reproduces", name], payload, False)
+    return out
